@@ -37,3 +37,32 @@ Proof.
   unfold M_fn_char_to_smt, fn_char_to_smt, char_to_smt.
   rewrite ?fmt_hex_0, ?fmt_hex_2, ?fmt_hex_4. gauto.
 Qed.
+
+(* ---- impl Display for SmtString: the Formatter is the text written so far ---- *)
+Definition disp_res (r : option (loopres (list N * result unit unit) (list N))) : option (list N) :=
+  match r with Some (LoopDone f) => Some f | _ => None end.
+
+Lemma char_from_u32_ascii x : (32 <=? x) && (x <? 127) = true -> char_from_u32 x = Some x.
+Proof. intros H. unfold char_from_u32. replace ((x <? 55296) || ((57343 <? x) && (x <=? 1114111))) with true by lia. reflexivity. Qed.
+
+Lemma link_fmt_loop : forall l f, disp_res (SmtString_fmt_loop1 l f) = Some (f ++ fmt_loop l).
+Proof.
+  induction l as [|x l IH]; intros f; [cbn; rewrite app_nil_r; reflexivity|].
+  cbn [SmtString_fmt_loop1 fmt_loop]. unfold fmt_char.
+  rewrite ?fmt_hex_0, ?fmt_hex_2, ?fmt_hex_4.
+  destruct (x =? 34) eqn:E1; [rewrite IH, <- app_assoc; reflexivity|].
+  destruct (x =? 92) eqn:E2; [rewrite IH, <- app_assoc; reflexivity|].
+  destruct ((32 <=? x) && (x <? 127)) eqn:E3.
+  { rewrite (char_from_u32_ascii x E3). cbn [bind]. rewrite IH, <- app_assoc. reflexivity. }
+  destruct ((x <? 32) || (x =? 127)) eqn:E4; [rewrite IH, <- app_assoc; reflexivity|].
+  destruct (x <? 65536) eqn:E5; rewrite IH, <- app_assoc; reflexivity.
+Qed.
+
+(* Display never fails or panics and appends the model's smt_display to the text written so far *)
+Lemma link_display s f : M_SmtString_fmt s f = Some (f ++ smt_display (SmtString_s s), Ok tt).
+Proof.
+  unfold M_SmtString_fmt, SmtString_fmt, smt_display.
+  pose proof (link_fmt_loop (SmtString_s s) (f ++ [34])) as H.
+  destruct (SmtString_fmt_loop1 (SmtString_s s) (f ++ [34])) as [[r|f']|]; cbn [disp_res] in H; try discriminate.
+  injection H as ->. cbn [bind]. rewrite <- !app_assoc. reflexivity.
+Qed.
